@@ -5,13 +5,16 @@
 //!   sim selftest <world>                determinism proof: every seed twice, at two worker counts
 //!   sim worker ...                      internal
 
+mod a_check;
 mod canon;
 mod entropy;
 mod gen;
 mod h_check;
 mod rng;
 mod runner;
+mod sched;
 mod walker;
+mod world_a;
 mod world_h;
 
 use std::time::Instant;
@@ -45,6 +48,7 @@ fn main() {
             let extra = &args[8..];
             let agg = match world {
                 "H" => h_check::worker(tier, seed, from, to, extra),
+                "A" => a_check::worker(tier, seed, from, to, extra),
                 _ => usage(),
             };
             std::fs::write(out, serde_json::to_string(&agg).unwrap()).unwrap();
@@ -61,6 +65,7 @@ fn main() {
             }
             match prop {
                 "C04" | "C20" => h_check::check(prop, tier, started),
+                "C11" | "C12" => a_check::check(prop, tier, started),
                 _ => usage(),
             }
         }
@@ -78,6 +83,7 @@ fn main() {
             });
             match v["world"].as_str() {
                 Some("H") => h_check::replay(&v, &args[2]),
+                Some("A") => a_check::replay(&v, &args[2]),
                 _ => {
                     eprintln!("HARNESS-ERROR: unknown world in replay file");
                     2
@@ -90,6 +96,7 @@ fn main() {
             }
             match args[2].as_str() {
                 "H" => h_check::selftest(),
+                "A" => a_check::selftest(),
                 _ => usage(),
             }
         }
